@@ -21,6 +21,7 @@ RULE = ('programs of 2-10 statements over host-supplied nested lists/dicts/tuple
         'items/enumerate/values/keys/sorted/map/filter/get/reversed (tuples and fresh lists that still contain the original inner objects), host callbacks returning host objects, '
         'chained up to 4 deep, inside lambda bodies (ast_names) and at top level, interleaved with mutations (push/pop/insert/remove/index write/del) through either side. '
         'Non-trivial = an assignment of a value containing at least one mutable container was checked by I1/I2; distinct = distinct program text.')
+RULE += ' Right-hand sides also apply - * / ** and unary minus to containers, and host values contain members that cannot be deep-copied (a lock, a generator) next to nested lists.'
 ASSUMPTIONS = ['internal aliasing inside one stored value is legitimate; the invariant is about objects shared with the outside',
                'for compound forms the independent copy is that of the operand (the target list itself is extended in place by design)',
                'push/insert are not assignments (they store the same object) and are not judged here']
